@@ -2,6 +2,7 @@
 use crate::engine::{Check, Ctx};
 use serde_json::Value;
 
+pub mod c01;
 pub mod c03;
 
 pub struct PropMeta {
@@ -12,17 +13,19 @@ pub struct PropMeta {
 
 pub fn meta(prop: &str) -> PropMeta {
     match prop {
+        "C01" => c01::META,
         "C03" => c03::META,
         _ => PropMeta { level: "exploration", rule: "", assumptions: &[] },
     }
 }
 
 pub fn known(prop: &str) -> bool {
-    matches!(prop, "C03")
+    matches!(prop, "C01" | "C03")
 }
 
 pub fn run(ctx: &mut Ctx) {
     match ctx.prop.clone().as_str() {
+        "C01" => c01::run(ctx),
         "C03" => c03::run(ctx),
         p => panic!("unknown property {}", p),
     }
@@ -31,6 +34,7 @@ pub fn run(ctx: &mut Ctx) {
 /// re-run one saved case through the oracle, bypassing all generators
 pub fn replay(ctx: &mut Ctx, stage: &str, case: &Value) -> Check {
     match ctx.prop.clone().as_str() {
+        "C01" => c01::replay(ctx, stage, case),
         "C03" => c03::replay(ctx, stage, case),
         p => panic!("unknown property {}", p),
     }
